@@ -398,8 +398,10 @@ func (q *TransmitLimitedQueue) Prune(maxRetain int) {
 	q.mu.Lock()
 	defer q.mu.Unlock()
 
-	// Do nothing if queue size is less than the limit
-	for q.tq.Len() > maxRetain {
+	// Do nothing if queue size is less than the limit. A queue that was
+	// never used (or was Reset) has no tree yet and nothing to discard,
+	// whatever the limit.
+	for q.lenLocked() > max(maxRetain, 0) {
 		item := q.tq.Max()
 		if item == nil {
 			break
